@@ -471,6 +471,46 @@ def rule_trie_table(ctx: Ctx) -> RuleResult:
     return rr
 
 
+def rule_event_kind(ctx: Ctx) -> RuleResult:
+    """The events process_keyqueue returns are strings (keys) or tuples (mouse events are 4-tuples, cursor position
+    reports 3-tuples - both come from the trie readers).  Where it takes an event of a nested decode apart with a
+    string method, the path must have excluded *every* tuple (isinstance test): a narrower predicate such as
+    is_mouse_event() lets the other tuple kind through and the string method raises AttributeError."""
+    from ..rules.exc import ExcEngine
+
+    p = ctx.p
+    rr = RuleResult("KIND", "C05.9", "string methods are applied to an event of the nested decode only after an isinstance test excluded every tuple event", floor=1)
+    fi = p.func("urwid.display.escape.process_keyqueue")
+    cfg = cfg_of(fi)
+    # names bound to the result list of a recursive call
+    runs = set()
+    for n in fi.own_nodes():
+        if isinstance(n, ast.Assign) and isinstance(n.value, ast.Call) and callee_name(n.value) == fi.name and isinstance(n.targets[0], ast.Tuple) and isinstance(n.targets[0].elts[0], ast.Name):
+            runs.add(n.targets[0].elts[0].id)
+    if not runs:
+        raise AnalysisError("process_keyqueue: the nested (ESC-prefixed) decode was not found")
+    STR_METHODS = {"find", "startswith", "endswith", "split", "lower", "upper", "replace", "index", "strip", "join", "encode"}
+    for node in cfg.nodes:
+        if node.ast is None or node.kind in ("for", "with", "handler"):
+            continue
+        for c in walk_no_nested(node.ast):
+            if isinstance(c, ast.Call) and isinstance(c.func, ast.Attribute) and c.func.attr in STR_METHODS and isinstance(c.func.value, ast.Subscript) and isinstance(c.func.value.value, ast.Name) and c.func.value.value.id in runs:
+                ev = ast.unparse(c.func.value)
+                rr.inst(norm(c, 40), True, {"use": norm(c, 50)})
+                ok = False
+                for t in cfg.nodes:
+                    if t.kind != "test":
+                        continue
+                    txt = ast.unparse(t.ast)
+                    if txt == f"isinstance({ev}, tuple)" and node not in ExcEngine._reach_without_edge(cfg, t, "F"):
+                        ok = True
+                    if txt in (f"isinstance({ev}, str)", f"not isinstance({ev}, tuple)") and node not in ExcEngine._reach_without_edge(cfg, t, "T"):
+                        ok = True
+                if not ok:
+                    rr.add(finding("KIND", fi, c, f"`{norm(c, 50)}` treats `{ev}` as a string, but the nested decode can return a tuple event (mouse event, cursor position report) and no isinstance test on this path excludes all tuples: ESC ESC [ 5 ; 5 R raises AttributeError", construct=f"string method on a possibly-tuple event: {norm(c, 50)}"))
+    return rr
+
+
 def run(ctx: Ctx):
     p = ctx.p
     out = [
@@ -493,6 +533,7 @@ def run(ctx: Ctx):
     from . import c11
 
     out.append(c11.rule_dbe_ranges(ctx, "C05.8"))
+    out.append(rule_event_kind(ctx))
     return out
 
 
@@ -501,6 +542,7 @@ from ..mutants import Mut  # noqa: E402
 _E = "urwid/display/escape.py"
 _R = "urwid/display/_raw_display_base.py"
 MUTANTS = [
+    Mut("meta-branch-only-knows-mouse-tuples", _E, "process_keyqueue", "        if isinstance(run[0], tuple):", "        if urwid.util.is_mouse_event(run[0]):", "KIND|display.escape.process_keyqueue"),
     Mut("meta-decode-never-waits", _E, "process_keyqueue", "run, remaining_codes = process_keyqueue(codes[1:], more_available)", "run, remaining_codes = process_keyqueue(codes[1:], False)", "FLAG-FWD|display.escape.process_keyqueue"),
     Mut("mouse-info-no-more-input", _E, "KeyqueueTrie.read_mouse_info", "        if len(keys) < 3:\n            if more_available:\n                raise MoreInputRequired()\n            return None", "        if len(keys) < 3:\n            return None", "PAIR|display.escape.KeyqueueTrie.read_mouse_info"),
     Mut("cursor-report-cut-before-R", _E, "KeyqueueTrie.read_cursor_position", "        if not keys[i:] and more_available:\n            raise MoreInputRequired()\n        return None", "        return None", "PAIR|display.escape.KeyqueueTrie.read_cursor_position"),
